@@ -21,6 +21,7 @@ CHECKS = {
     'C03': ('dbmc', 'Every sequence (to the depth bound) of the real operations that write an attempt row (schedule, creating/started/complete reports, heartbeats, unschedule, instance deactivation with each reason) over a 3-value clock on two attempts; the per-transition rules of the statement checked on every row change.', DB, DBT),
     'C04': ('dbmc', 'Same state space as C01; every jobs-row state change is observed at row-update granularity inside the SQL interpreter and judged against the allowed lifecycle relation; group tallies recomputed in every state.', DB, DBT),
     'C06': ('dbmc', 'Same state space as C01; completion flags, n_jobs and tallies of the batch and every visible group recomputed from job states in every state, also through the real readers _get_batch/_get_job_group.', DB, DBT),
+    'C39': ('dbmc', 'The complete reachable state graph (BFS to fixpoint) of small batches (chain with an always-run sibling; nested groups) under the real scheduler sweep, the real canceller and orphan sweeps, worker success/failure reports, cancellation of any group and one preemption. Safety on every state and row change; liveness by graph analysis: from every state a state with every committed job terminal is reachable by the system\'s own (fair) transitions, and every bottom SCC of the fair sub-graph consists of such states.', DB + ' Liveness is judged under weak fairness of scheduler/canceller sweeps and worker reports with one instance never preempted.', DBT + '; fair-SCC liveness analysis on the explored graph'),
     'C41': ('dbmc', 'Same state space as C01 with the second update committed late or never; jobs of uncommitted updates must stay Pending, never get attempts (the real scheduler sweep is a transition), and never influence counters, tallies or completion (C01/C06 recomputations restricted to committed updates).', DB, DBT),
     'C05': ('dbmc', 'Every job DAG on 3 (thorough: 4) jobs x every split of the jobs over update 1 / update 2 x always-run choices; for each program every interleaving (to the depth bound) of the requests of the second update, committed at every possible point, with real scheduler sweeps, success/failure reports and canceller sweeps; readiness gating, cancelled-flag propagation and never-stuck-Pending judged on every row change and state.', DB, DBT),
     'C07': ('dbmc', 'Group trees root>g1>g2 with a sibling; cancellation of any group in any order incl. sub-group before ancestor and repeats, interleaved with real scheduler/canceller sweeps, worker reports and a client submitting groups/jobs/updates beneath the groups; confinement, rejection-without-effect, idempotence, unaffected siblings and error-free scheduling requests judged on every transition.', DB, DBT),
